@@ -64,6 +64,13 @@ def cases(tier, variants):
                                var=v, maxcor=3, user="pure", sc=0, jac="callable", tgt=j,
                                tcall=tc)
     yield from E.env_cases(6, 2, variants)
+    # history letter: the objective is really redefined (rescaled by c at update call k)
+    # while a callback watches: every state must carry the value and gradient of the
+    # objective in force when it is handed over
+    for b in H.base_runs(variants, maxcors=(3,), small=True):
+        for k in (1, 3):
+            for c in (0.5, 3.0):
+                yield dict(b, part="updcb", k=k, c=c)
     # restart letter: the start handed to a restart differs from checkpoint.x in the last
     # bit (rebuilt from normalised variables, round trip through a file): whatever the
     # package does with it (the unchanged tree refuses), what it returns must be coherent
@@ -71,6 +78,8 @@ def cases(tier, variants):
         for k in (1, 3):
             for extra in (0, 1):
                 yield dict(b, part="pert", k=k, extra=extra)
+            # restart whose (new) target is already met by the checkpoint: returns at once
+            yield dict(b, part="pert", k=k, extra=1, tgtmet=1)
     mcs = (2, 5) if tier == "quick" else (1, 2, 3, 5)
     for b in H.base_runs(variants, maxcors=mcs):
         for r in (1, 2, 3):
@@ -134,6 +143,35 @@ def run(case):
         return dict(viol=viol[:4], outcome=f"env|{res.message}",
                     nontrivial=core.case_hash(case) if res.nfev > res.nit + 1 else None)
     p = F.problem_of(case)
+    if part == "updcb":
+        k, c = case["k"], case["c"]
+        sc, ncall, states = [1.0], [0], []
+
+        def upd(x, f0, f0_old, grad, X, G):
+            ncall[0] += 1
+            if ncall[0] - 1 == k:
+                sc[0] = c
+                return c * f0, c * f0_old, c * grad, type(G)(c * q for q in G)
+            return f0, f0_old, grad, G
+
+        def cb(x, st):
+            states.append((sc[0], copy.deepcopy(st)))
+            return False
+        res = minimize_lbfgsb(x0=p.x0.copy(), fun=lambda x: sc[0] * p.f(x),
+                              jac=lambda x: sc[0] * np.asarray(p.g(x), float),
+                              bounds=p.bounds.copy(), maxcor=case["maxcor"], maxiter=8,
+                              ftol=-10.0, gtol=1e-12, update_fun_def=upd, callback=cb)
+        for i, (s_now, st) in enumerate(states + [(sc[0], res)]):
+            xx = np.asarray(st.x, float)
+            wf, wg = s_now * p.f(xx), s_now * np.asarray(p.g(xx), float)
+            if abs(float(st.fun) - wf) > 1e-12 * (1 + abs(wf)):
+                viol.append(V("state_fun_not_the_value_of_the_objective_in_force", state=i + 1,
+                              fun=float(st.fun), want=wf))
+            if np.max(np.abs(np.asarray(st.jac) - wg)) > 1e-12 * (1 + np.max(np.abs(wg))):
+                viol.append(V("state_jac_not_the_gradient_of_the_objective_in_force",
+                              state=i + 1, jac=st.jac, want=wg))
+        return dict(viol=viol[:4], outcome="updcb",
+                    nontrivial=core.case_hash(case) if len(states) > k else None)
     if part == "pert":
         obs = F.Obs(p.f, p.g, p.lb, p.ub)
         k = case["k"]
@@ -142,10 +180,14 @@ def run(case):
             return dict(viol=[], outcome="parent_stopped_early", stats={"skipped": 1})
         x1 = np.nextafter(np.asarray(ck.x, float), np.inf)
         x1 = np.where(x1 > p.ub, np.nextafter(np.asarray(ck.x, float), -np.inf), x1)
+        kwt = {}
+        if case.get("tgtmet"):
+            x1 = np.array(ck.x, copy=True)
+            kwt["ftarget"] = float(ck.fun) + 1.0
         try:
             r = minimize_lbfgsb(x0=x1, fun=obs.fun, jac=obs.jac, bounds=p.bounds.copy(),
                                 maxcor=case["maxcor"], maxiter=k + case["extra"], ftol=0.0,
-                                gtol=1e-10, checkpoint=copy.deepcopy(ck))
+                                gtol=1e-10, checkpoint=copy.deepcopy(ck), **kwt)
         except core.CaseTimeout:
             raise
         except Exception as e:
